@@ -4,6 +4,10 @@
 mod c04;
 mod c06;
 mod shard;
+mod xorb;
+
+#[global_allocator]
+static GLOBAL: xorb::Watch = xorb::Watch;
 mod util;
 
 use std::io::{BufRead, Write};
@@ -35,6 +39,12 @@ fn main() {
             "c10" => shard::run_c10(&toks[1..]),
             "c10c" => shard::run_c10c(&toks[1..]),
             "c18" => shard::run_c18(&toks[1..]),
+            "c18m" => shard::run_c18m(&toks[1..]),
+            "c07" => xorb::run_c07(&toks[1..]),
+            "c07prep" => xorb::prep_c07(&toks[1..]),
+            "bg4" => xorb::run_bg4(&toks[1..]),
+            "c08" | "c08z" => xorb::run_c08(&toks[1..]),
+            "c08prep" => xorb::prep_c08(&toks[1..]),
             _ => panic!("unknown stream"),
         });
         match res {
